@@ -18,6 +18,9 @@ RULE_A = ("cases are generated from the seed: configuration (pattern family, val
           "threads, >= 2 columns and at least one scheduling decision with >= 2 enabled tasks; distinct = distinct (H_sched, H_obs) pair, i.e. a different sequence of "
           "scheduling decisions or a different observable event/output history")
 
+TINY_RULE = ('; the `tiny` batch is an enumerating profile: configuration (seed div S) = every 0/1 pattern with n <= 3 (quick: 530 patterns) / n <= 4 (thorough: 66 066 patterns), structurally singular ones included; '
+             'item (seed mod S) k < n! gives the entry in row pi_k(j) of column j a 16-fold larger magnitude so that partial pivoting is steered towards the k-th pivot order (the order actually taken is observed, not assumed), further items use unsteered values; '
+             'precision, storage, ordering, tunables, driver and 1..3 threads are seeded')
 FOREST_BATCH = dict(profile='forest', flavour='plain', quick=3528 * 8, thorough=36990 * 64, S=8, S_thorough=64)
 FOREST_RULE = '; the `forest` batch is an enumerating profile: configuration (seed div S) walks through every postordered elimination forest with 1..6 columns (quick; 1..8 thorough: 2055 forests) x panel size 1..3 x relaxation 1..3 x 2..3 threads, the matrix is built to have exactly that column elimination tree (row j = columns j and parent(j), plus seeded entries in further ancestors), S = 8 (quick) / 64 (thorough) seeded schedules per configuration; the schedules of each configuration are sampled, not enumerated. A run that ends in a fatal signal counts against this check too (the routine did not return)'
 
@@ -25,8 +28,8 @@ CHECKS = {
  'C01': dict(seed_offset=1, level='exploration', rule=RULE_A, props=['C01'],
              batches=[dict(profile='ssv', flavour='plain', quick=60000, thorough=3000000), dict(profile='ssv', flavour='asan', quick=4000, thorough=150000), dict(profile='ssv', flavour='long', quick=8000, thorough=400000), dict(profile='ssv', flavour='vblas', quick=8000, thorough=400000)],
              must_probe=['solves_checked', 'spin_blocks', 'numbering_ne_storage_order', 'nprocs_gt_n']),
- 'C02': dict(seed_offset=2, level='exploration', rule=RULE_A, props=['C02'],
-             batches=[dict(profile='strf', flavour='plain', quick=60000, thorough=3000000), dict(profile='strf', flavour='asan', quick=4000, thorough=150000), dict(profile='strf', flavour='long', quick=8000, thorough=400000), dict(profile='strf', flavour='vblas', quick=8000, thorough=400000)],
+ 'C02': dict(seed_offset=2, level='exploration', rule=RULE_A + TINY_RULE, props=['C02'],
+             batches=[dict(profile='strf', flavour='plain', quick=60000, thorough=3000000), dict(profile='strf', flavour='asan', quick=4000, thorough=150000), dict(profile='strf', flavour='long', quick=8000, thorough=400000), dict(profile='strf', flavour='vblas', quick=8000, thorough=400000), dict(profile='tiny', flavour='plain', quick=530 * 8, thorough=66066 * 32, S=8, S_thorough=32)],
              must_probe=['factorizations_checked', 'update_2d', 'supernode_spans_two_panels', 'panel_split_at_top', 'offdiag_pivots']),
  'C03': dict(seed_offset=3, level='exploration', rule=RULE_A + FOREST_RULE, props=['C03', 'C02'], also=['C05:fatal_signal*', 'C05:sanitizer*'],
              batches=[dict(profile='pipe', flavour='plain', quick=60000, thorough=3000000), dict(profile='strf', flavour='plain', quick=20000, thorough=1000000), FOREST_BATCH],
@@ -34,12 +37,13 @@ CHECKS = {
  'C04': dict(seed_offset=4, level='exploration', rule=RULE_A + FOREST_RULE, props=['C04'], also=['C05:fatal_signal*', 'C05:sanitizer*'],
              batches=[dict(profile='term', flavour='plain', quick=60000, thorough=3000000), dict(profile='pipe', flavour='plain', quick=20000, thorough=1000000), FOREST_BATCH],
              must_probe=['nprocs_gt_n', 'idle_polls', 'forest_etree_as_intended', 'forest_shapes_distinct']),
- 'C05': dict(seed_offset=5, level='exploration', rule=RULE_A, props=['C05'],
+ 'C05': dict(seed_offset=5, level='exploration', rule=RULE_A + TINY_RULE, props=['C05'],
              batches=[dict(profile='mem', flavour='asan', quick=8000, thorough=300000), dict(profile='mem', flavour='plain', quick=40000, thorough=2000000),
-                      dict(profile='sym', flavour='plain', quick=16000, thorough=800000), dict(profile='sym', flavour='asan', quick=2000, thorough=80000)],
+                      dict(profile='sym', flavour='plain', quick=16000, thorough=800000), dict(profile='sym', flavour='asan', quick=2000, thorough=80000),
+                      dict(profile='mem', flavour='long', quick=8000, thorough=400000), dict(profile='tiny', flavour='asan', quick=530 * 8, thorough=66066 * 8, S=8, S_thorough=8)],
              must_probe=['lusup_allocs_checked', 'dyn_slots', 'abort_storage_exceeded']),
- 'C06': dict(seed_offset=6, level='exploration', rule=RULE_A, props=['C06', 'C05'],
-             batches=[dict(profile='sing', flavour='plain', quick=50000, thorough=2500000), dict(profile='sing', flavour='asan', quick=5000, thorough=200000)],
+ 'C06': dict(seed_offset=6, level='exploration', rule=RULE_A + TINY_RULE, props=['C06', 'C05'],
+             batches=[dict(profile='sing', flavour='plain', quick=50000, thorough=2500000), dict(profile='sing', flavour='asan', quick=5000, thorough=200000), dict(profile='tiny', flavour='plain', quick=530 * 8, thorough=66066 * 32, S=8, S_thorough=32)],
              must_probe=['singular_runs', 'structural_zero_column_runs', 'sing_profile_nonsingular_runs', 'zero_pivot_columns'],
              assumptions=["the structural-rank clause is asserted exactly only where symbolic elimination along the library's own pivot sequence leaves a structurally empty candidate set; rank deficiency that appears as cancellation between computed quantities is counted (inexact_cancellation_class), not asserted"]),
  'C07': dict(seed_offset=7, level='exploration', rule=RULE_A, props=['C07'],
